@@ -97,9 +97,13 @@ func (ioc *IO) Deregister(slot *internal.Slot) {
 		return
 	}
 
+	// Only forget the entry if it is this slot's: the registry is keyed by descriptor number, and the number of an
+	// object whose descriptor is already closed may have been handed to another object that is registered now.
 	if slot.Fd >= len(ioc.pending.static) {
-		delete(ioc.pending.dynamic, slot.Fd)
-	} else {
+		if ioc.pending.dynamic[slot.Fd] == slot {
+			delete(ioc.pending.dynamic, slot.Fd)
+		}
+	} else if ioc.pending.static[slot.Fd] == slot {
 		ioc.pending.static[slot.Fd] = nil
 	}
 }
